@@ -524,11 +524,25 @@ def gen_if_config(rng, idx):
         peer = ("p%s" % name)[:15]
         addrs = []
         for _ in range(rng.randrange(0, 4)):
-            if rng.random() < 0.5:
+            r = rng.random()
+            if r < 0.25:
+                # link-local, all eight groups spelled out: rendered as addr%ifname, up to 39 + 1 + 15 characters
+                addrs.append("fe80:" + ":".join("%x" % rng.randrange(0x1000, 0x10000) for _ in range(7)) + "/64")
+            elif r < 0.6:
                 addrs.append("10.%d.%d.%d/%d" % (rng.randrange(256), rng.randrange(256), rng.randrange(1, 255), rng.choice([8, 16, 24, 30, 31, 32, 19])))
             else:
                 addrs.append("fd%02x::%x/%d" % (rng.randrange(256), rng.randrange(1, 65535), rng.choice([64, 48, 128, 127, 10])))
-        ifs.append(dict(name=name, peer=peer, mtu=rng.choice([68, 576, 1280, 1400, 1500, 9000, 65535]), up=rng.random() < 0.7, addrs=addrs,
+        typ = "tun" if rng.random() < 0.25 else "veth"
+        if typ == "tun":
+            # point-to-point link without a hardware address: local + peer address pairs
+            addrs = []
+            for _ in range(rng.randrange(0, 3)):
+                if rng.random() < 0.5:
+                    addrs.append("10.%d.%d.%d peer 10.%d.%d.%d/%d" % (*(rng.randrange(1, 255) for _ in range(6)), rng.choice([24, 30, 32, 16])))
+                else:
+                    addrs.append("fd%02x::%x peer fd%02x::%x/%d" % (rng.randrange(256), rng.randrange(1, 65535), rng.randrange(256),
+                                                                  rng.randrange(1, 65535), rng.choice([64, 128, 127])))
+        ifs.append(dict(name=name, peer=peer, type=typ, mtu=rng.choice([68, 576, 1280, 1400, 1500, 9000, 65535]), up=rng.random() < 0.7, addrs=addrs,
                         mac="02:%02x:%02x:%02x:%02x:%02x" % tuple(rng.randrange(256) for _ in range(5))))
     return dict(kind="netns", ifs=ifs)
 
@@ -548,7 +562,10 @@ def run_netns_case(case, acc):
     made = []
     try:
         for it in case["ifs"]:
-            r = sh("ip", "link", "add", it["name"], "address", it["mac"], "type", "veth", "peer", "name", it["peer"])
+            if it.get("type") == "tun":
+                r = sh("ip", "tuntap", "add", "dev", it["name"], "mode", "tun")
+            else:
+                r = sh("ip", "link", "add", it["name"], "address", it["mac"], "type", "veth", "peer", "name", it["peer"])
             if r.returncode != 0:
                 continue
             made.append(it)
@@ -556,10 +573,11 @@ def run_netns_case(case, acc):
                 sh("sysctl", "-qw", f"net.ipv6.conf.{it['name'].replace('.', '/')}.disable_ipv6=0")
             sh("ip", "link", "set", it["name"], "mtu", str(it["mtu"]))
             for a in it["addrs"]:
-                sh("ip", "addr", "add", a, "dev", it["name"], *(["nodad"] if ":" in a else []))
+                sh("ip", "addr", "add", *a.split(), "dev", it["name"], *(["nodad"] if ":" in a else []))
             if it["up"]:
                 sh("ip", "link", "set", it["name"], "up")
-                sh("ip", "link", "set", it["peer"], "up")
+                if it.get("type") != "tun":
+                    sh("ip", "link", "set", it["peer"], "up")
         harness.mark_current(case)
         ref = json.loads(sh("ip", "-j", "addr", "show").stdout or "[]")
         addrs = ps.net_if_addrs()
@@ -595,6 +613,16 @@ def run_netns_case(case, acc):
             macs = [a.address for a in got if a.family == ps.AF_LINK]
             if r.get("address") and macs != [r["address"]]:
                 viols.append(("net_if_addrs_mac_wrong", f"{name}: got {macs} want {r['address']}"))
+            if r.get("link_type") == "none" and macs:
+                viols.append(("net_if_addrs_mac_wrong", f"{name}: link without hardware address, got {macs}"))
+            # point-to-point peers
+            want_ptp = {(ai["local"], ai["address"]) for ai in r.get("addr_info", []) if "address" in ai and "local" in ai
+                        and ai["address"] != ai["local"]}
+            got_ptp = {(a.address, a.ptp) for a in got if a.family in (socket.AF_INET, socket.AF_INET6) and a.ptp is not None}
+            if want_ptp or got_ptp:
+                acc.count("netns_ptp_pairs_compared", len(want_ptp))
+                if want_ptp != got_ptp:
+                    viols.append(("net_if_addrs_ptp_wrong", f"{name}: got {sorted(got_ptp)} want {sorted(want_ptp)}"))
             for a in got:
                 if a.family == socket.AF_INET and a.broadcast is not None:
                     wantb = [ai.get("broadcast") for ai in r.get("addr_info", []) if ai["family"] == "inet" and ai["local"] == a.address]
